@@ -754,28 +754,65 @@ func (e *Env) lineBreakEffectA(info *types.Info, block []ast.Stmt, curAlias, lin
 	}
 	var offVal func(x ast.Expr) (int, bool) // int-valued file offset, relative to c0 - base
 	offVal = func(x ast.Expr) (int, bool) {
-		x = ast.Unparen(x)
-		switch v := x.(type) {
-		case *ast.Ident:
-			r, ok := offs[info.Uses[v]]
-			return r, ok
-		case *ast.BinaryExpr:
-			if v.Op == token.SUB && isBase(v.Y) {
-				if cl, ok := ast.Unparen(v.X).(*ast.CallExpr); ok && len(cl.Args) == 1 {
-					if tv, ok := info.Types[cl.Fun]; ok && tv.IsType() {
-						return posVal(cl.Args[0])
-					}
-				}
+		// a sum with exactly one cursor-derived position (converted to int) and r.base subtracted
+		// once — or an int local that already holds such an offset — plus integer constants
+		type term struct {
+			x   ast.Expr
+			neg bool
+		}
+		var terms []term
+		var flat func(e ast.Expr, neg bool)
+		flat = func(e ast.Expr, neg bool) {
+			e = ast.Unparen(e)
+			if be, ok := e.(*ast.BinaryExpr); ok && (be.Op == token.ADD || be.Op == token.SUB) {
+				flat(be.X, neg)
+				flat(be.Y, neg != (be.Op == token.SUB))
+				return
 			}
-			if v.Op == token.ADD {
-				if a, ok := offVal(v.X); ok {
-					if k, ok := constInt(v.Y); ok {
-						return a + k, true
+			terms = append(terms, term{e, neg})
+		}
+		flat(x, false)
+		sum, nPos, nBase := 0, 0, 0
+		for _, t := range terms {
+			switch {
+			case isBase(t.x):
+				if !t.neg {
+					return 0, false
+				}
+				nBase++
+			default:
+				if k, ok := constInt(t.x); ok {
+					if t.neg {
+						sum -= k
+					} else {
+						sum += k
+					}
+					continue
+				}
+				if id, ok := t.x.(*ast.Ident); ok {
+					if r, ok := offs[info.Uses[id]]; ok && !t.neg {
+						sum += r
+						nPos++
+						nBase++
+						continue
 					}
 				}
+				if cl, ok := t.x.(*ast.CallExpr); ok && len(cl.Args) == 1 && !t.neg {
+					if tv, ok := info.Types[cl.Fun]; ok && tv.IsType() {
+						if v, ok := posVal(cl.Args[0]); ok {
+							sum += v
+							nPos++
+							continue
+						}
+					}
+				}
+				return 0, false
 			}
 		}
-		return 0, false
+		if nPos != 1 || nBase != 1 {
+			return 0, false
+		}
+		return sum, true
 	}
 	for _, st := range block {
 		switch x := st.(type) {
